@@ -1,6 +1,12 @@
 SPECIFICATION TraceSpec
 CONSTANTS
-  Mode = "enc"
+  Modes = {}
+  KindsE = {}
+  KindsA = {}
+  KindsD = {}
+  MaxMsgsA = 0
+  SStreams = {}
+  SQs = {}
   Kinds = {}
   Alpha = {}
   MaxMsg = 0
@@ -10,6 +16,7 @@ CONSTANTS
   Pres = {}
   DelKs = {}
   NextSet = {}
+  NextSetA = {}
   Shifts = {}
   DMaxLen = 0
   DSlacks = {}
